@@ -163,6 +163,7 @@ pub fn required_probes(prop: &str) -> Vec<&'static str> {
             "probe.callback_panicked_mid_op",
             "probe.env_read_during_op",
             "probe.twin_compared_after_history",
+            "probe.twin_on_fresh_thread",
             "rule.T2.evaluated",
             "rule.T3.evaluated",
             "rule.T4.evaluated",
@@ -531,8 +532,13 @@ fn gen_cmd(args: &[String]) -> i32 {
     0
 }
 
+pub static DEBUG_TICKS: std::sync::atomic::AtomicBool = std::sync::atomic::AtomicBool::new(false);
+
 fn main() {
     let _ = root();
+    if std::env::var("SIM_DEBUG_TICKS").is_ok() {
+        DEBUG_TICKS.store(true, std::sync::atomic::Ordering::Relaxed);
+    }
     let args: Vec<String> = std::env::args().skip(1).collect();
     let code = match args.first().map(|s| s.as_str()) {
         Some("worker") => worker(&args[1..]),
